@@ -98,6 +98,15 @@ var profile = []pkgCfg{
 		},
 	},
 	{
+		// engine E-D overlapping-requests harness (C14conc, controller side): the handlers' own fan-out goroutines
+		// and wait groups are managed threads / scheduling points
+		Dir: "controller/rest", Chan: true, Sync: true, Time: true,
+		Files: map[string]fileCfg{
+			"volume.go": {Min: map[string]int{"go": 2, "sync": 1}},
+			"delete.go": {Min: map[string]int{"go": 1, "sync": 1}},
+		},
+	},
+	{
 		Dir: "replica", Chan: false, Sync: true, Time: true, Accessor: "edreplica",
 		Files: map[string]fileCfg{
 			"replica.go": {Min: map[string]int{"sync": 1}},
